@@ -5,6 +5,7 @@ package absnfs
 import (
 	"fmt"
 	"io"
+	"strings"
 	"testing"
 
 	"verif.local/lib/evid"
@@ -19,25 +20,34 @@ import (
 // an observed EOF, never a timeout.
 func TestVerif_C28(t *testing.T) {
 	rec := evid.New("C28")
-	rec.Rule = "start paths {AbsfsNFS.Export with port 0 / explicit port, Server.Listen with UseRecordMarking, StartWithPortmapper} x debug {off,on}; a conformant record-marking client performs NULL, MNT / and GETATTR of the mounted handle; then Unexport/Stop; distinct = (start path, option combination, step, outcome) tuples"
+	rec.Rule = "start paths {AbsfsNFS.Export with port 0 / explicit port, Server.Listen with UseRecordMarking, StartWithPortmapper} x debug {off,on} (+ squash root/all/none); a conformant record-marking client performs NULL (AUTH_NONE), MNT / and GETATTR of the mounted handle, then keeps talking on the same connection (replies of every length in every order); then Unexport/Stop; distinct = (start path, option combination, step, outcome) tuples"
 	defer rec.Write()
 	for _, debug := range []bool{false, true} {
 		for _, pathName := range []string{"Export(port 0)", "Export(explicit port)", "Server.Listen+UseRecordMarking", "StartWithPortmapper"} {
-			vfC28One(rec, pathName, debug)
+			vfC28One(rec, pathName, debug, "")
+		}
+	}
+	// the same with identity squashing configured (the NULL ping carries AUTH_NONE)
+	for _, sq := range []string{"root", "all", "none"} {
+		for _, pathName := range []string{"Export(port 0)", "Server.Listen+UseRecordMarking"} {
+			vfC28One(rec, pathName, sq == "all", sq)
 		}
 	}
 }
 
-func vfC28One(rec *evid.Rec, pathName string, debug bool) {
+func vfC28One(rec *evid.Rec, pathName string, debug bool, squash string) {
 	fs := refs.New()
 	fs.PlantFile("/f", []byte("x"), 0644, 0, 0)
-	n, err := New(fs, ExportOptions{})
+	n, err := New(fs, ExportOptions{Squash: squash})
 	if err != nil {
 		rec.Infra(err.Error())
 		return
 	}
 	vfQuiet(n)
 	desc := fmt.Sprintf("%s debug=%v", pathName, debug)
+	if squash != "" {
+		desc += " squash=" + squash
+	}
 	evid.Journal(desc)
 	var port int
 	var stop func()
@@ -112,9 +122,11 @@ func vfC28One(rec *evid.Rec, pathName string, debug bool) {
 		rec.Distinct(desc + "|" + name + "|answered")
 		return rep
 	}
+	conn.none = true // the standard NULL ping carries AUTH_NONE
 	if step("NULL", vfProgNFS, 0, nil) == nil {
 		return
 	}
+	conn.none = false
 	rep := step("MNT", vfProgMount, 1, (&xdrw.W{}).Str("/").B)
 	if rep == nil {
 		return
@@ -130,6 +142,36 @@ func vfC28One(rec *evid.Rec, pathName string, debug bool) {
 	}
 	if g, derr := rfc.DecodeNFS(1, rep.Body); derr != nil || g.Status != 0 || g.Attr.Type != 2 {
 		rec.Violate("C28/getattr-of-mounted-handle-failed/start="+pathName, fmt.Sprintf("%v %+v", derr, g), nil)
+	}
+	// the conversation goes on on the same connection: replies of every length in every order
+	// (a long reply followed by shorter ones, and back)
+	conn.none = true
+	if step("NULL-again", vfProgNFS, 0, nil) == nil {
+		return
+	}
+	conn.none = false
+	for _, st := range []string{"GETATTR-again", "MNT-again", "NULL-3", "GETATTR-3", "READDIRPLUS", "NULL-4", "GETATTR-4"} {
+		var rp *rfc.Reply
+		switch {
+		case strings.HasPrefix(st, "GETATTR"):
+			rp = step(st, vfProgNFS, 1, xdrw.ArgFH(vfFH(m.FH)))
+			if rp != nil {
+				if g, derr := rfc.DecodeNFS(1, rp.Body); derr != nil || g.Status != 0 || g.Attr.Type != 2 {
+					rec.Violate("C28/getattr-of-mounted-handle-failed/start="+pathName+"/later-in-the-conversation", fmt.Sprintf("%s: %v %+v", st, derr, g), nil)
+				}
+			}
+		case strings.HasPrefix(st, "MNT"):
+			rp = step(st, vfProgMount, 1, (&xdrw.W{}).Str("/").B)
+		case st == "READDIRPLUS":
+			rp = step(st, vfProgNFS, 17, xdrw.ArgReaddirplus(vfFH(m.FH), 0, [8]byte{}, 4096, 8192))
+		default:
+			conn.none = true
+			rp = step(st, vfProgNFS, 0, nil)
+			conn.none = false
+		}
+		if rp == nil {
+			return
+		}
 	}
 	rec.Sample(map[string]any{"start": desc, "port": port})
 }
